@@ -14,11 +14,11 @@ meta = {
     'needs_to_manifest': needs,
     'confirmed': {
         'how': 'tools/seed_validate.sh: scratch worktree of /repo HEAD; demo on clean tree (must PASS), patch applied, demo (must FAIL), full test suite',
-        'demo_clean_exit_0': '-- demo on clean tree:\nPASS\nexit=0' in val or 'exit=0' in val.split('-- patch applied')[0],
+        'demo_clean_prints_PASS': 'PASS' in val.split('-- patch applied')[0],
         'demo_mutated_fails': 'exit=1' in val.split('-- patch applied')[-1],
         'suite_line': [l for l in val.splitlines() if ' passed' in l and l.startswith('=')][:1] or None,
         'suite_failures_other_than_the_no_network_lookup_tests': [l.split(' - ')[0] for l in val.splitlines() if l.startswith('FAILED') and 'test_tcp_lookup_failure' not in l],
-        'those_rerun_alone_with_the_change_applied': [l.strip() for l in val.split('-- recheck')[-1].splitlines()[1:]] if '-- recheck' in val else [],
+        'those_rerun_alone_with_the_change_applied': [l.strip() for l in val.split('-- recheck')[-1].splitlines()[1:] if l.strip()] if '-- recheck' in val else [],
     },
     'detected_by': detected,
     'apply': 'git -C /repo apply seeded/%s-%s/patch.diff ; bin/check %s ; git -C /repo checkout -- .' % (P, os.environ.get('SEED_NAME', X), P),
